@@ -70,9 +70,9 @@ theorem place_kids (md : Mod) (n : Name) (t : Tn) (wb : Bool) : (place md n t wb
   · split <;> rfl
 
 /-- the result of `setTensor` on the cell `n`, and only there -/
-theorem setTensor_ok {md md' : Mod} {n : Name} {t out : Tn} (h : setTensor md n t = .ok (md', out)) :
+theorem setTensorNative_ok {md md' : Mod} {n : Name} {t out : Tn} (h : setTensorNative md n t = .ok (md', out)) :
     cellSwap (md.cell n) t = some (md'.cell n, out) ∧ (∀ n', n' ≠ n → md'.cell n' = md.cell n') ∧ md'.kids = md.kids := by
-  unfold setTensor setTensorWith at h
+  unfold setTensorNative setTensorWith at h
   simp only at h
   unfold cellSwap
   cases hp : (Dict.get? md.params n).join with
@@ -105,6 +105,55 @@ theorem setTensor_ok {md md' : Mod} {n : Name} {t out : Tn} (h : setTensor md n 
         · simp [place_kids]
       | none => simp [hd] at h
 
+
+/-- the custom-`__setattr__` branch has the same effect on the cell (it differs from the native branch only in
+where inside the dicts the entries end up) -/
+theorem setTensorCustom_ok {md md' : Mod} {n : Name} {t out : Tn} (h : setTensorCustom md n t = .ok (md', out)) :
+    cellSwap (md.cell n) t = some (md'.cell n, out) ∧ (∀ n', n' ≠ n → md'.cell n' = md.cell n') ∧ md'.kids = md.kids := by
+  unfold setTensorCustom at h
+  unfold cellSwap cellPlace
+  cases hp : Dict.get? md.params n with
+  | some v =>
+    cases v with
+    | none => simp [hp] at h
+    | some o =>
+      simp only [hp] at h
+      cases ht : t.isParam <;> simp only [ht, if_true, if_false, Bool.false_eq_true] at h <;>
+        (injection h with h; injection h with h1 h2; subst h1 h2;
+         refine ⟨?_, ?_, rfl⟩
+         · simp [Mod.cell, hp, Option.join, ht, Dict.get?_set, Dict.get?_pop]
+         · intro n' hn; simp [Mod.cell, Dict.get?_set, Dict.get?_pop, Ne.symm hn])
+  | none =>
+    simp only [hp] at h
+    cases hb : Dict.get? md.buffers n with
+    | some v =>
+      cases v with
+      | none => simp [hb] at h
+      | some o =>
+        simp only [hb] at h
+        injection h with h; injection h with h1 h2; subst h1 h2
+        refine ⟨?_, ?_, rfl⟩
+        · simp [Mod.cell, hp, hb, Option.join, Dict.get?_set]
+        · intro n' hn; simp [Mod.cell, Dict.get?_set, Ne.symm hn]
+    | none =>
+      simp only [hb] at h
+      cases hd : Dict.get? md.plain n with
+      | none => simp [hd] at h
+      | some o =>
+        simp only [hd] at h
+        cases ht : t.isParam <;> simp only [ht, if_true, if_false, Bool.false_eq_true] at h <;>
+          (injection h with h; injection h with h1 h2; subst h1 h2;
+           refine ⟨?_, ?_, rfl⟩
+           · simp [Mod.cell, hp, hb, hd, Option.join, ht, Dict.get?_set, Dict.get?_pop]
+           · intro n' hn; simp [Mod.cell, Dict.get?_set, Dict.get?_pop, Ne.symm hn])
+
+/-- the result of the leaf step on the cell `n`, and only there — whichever branch the module's class selects -/
+theorem setTensor_ok {md md' : Mod} {n : Name} {t out : Tn} (h : setTensor md n t = .ok (md', out)) :
+    cellSwap (md.cell n) t = some (md'.cell n, out) ∧ (∀ n', n' ≠ n → md'.cell n' = md.cell n') ∧ md'.kids = md.kids := by
+  unfold setTensor at h
+  split at h
+  · exact setTensorCustom_ok h
+  · exact setTensorNative_ok h
 
 /-- the three dicts are consistent about one name (torch's registration invariants): at most one of
 them binds it; `_parameters` holds `nn.Parameter`s, tensors in `__dict__` are not Parameters -/
@@ -356,9 +405,9 @@ theorem swap_frame : ∀ (es : List (Name × PTree)) (h : Heap) (memo : Memo) (m
       · simp [shape, ih2.shp]
 
 
-theorem setTensor_err {md : Mod} {n : Name} {t : Tn} {e} (h : setTensor md n t = .error e) :
+theorem setTensorNative_err {md : Mod} {n : Name} {t : Tn} {e} (h : setTensorNative md n t = .error e) :
     cellSwap (md.cell n) t = none := by
-  unfold setTensor setTensorWith at h
+  unfold setTensorNative setTensorWith at h
   simp only at h
   unfold cellSwap
   cases hp : (Dict.get? md.params n).join with
@@ -373,12 +422,48 @@ theorem setTensor_err {md : Mod} {n : Name} {t : Tn} {e} (h : setTensor md n t =
       | some o => simp [hd] at h
       | none => simp [Mod.cell, hp, hb, hd]
 
-/-- `_set_tensor_dict` succeeds exactly when the cell view does, with that result -/
-theorem setTensor_of_cell {md : Mod} {n : Name} {t out : Tn} {c' : Cell}
+theorem setTensorCustom_err {md : Mod} {n : Name} {t : Tn} {e} (hwf : CellWF (md.cell n))
+    (h : setTensorCustom md n t = .error e) : cellSwap (md.cell n) t = none := by
+  unfold setTensorCustom at h
+  unfold CellWF Mod.cell at hwf
+  unfold cellSwap Mod.cell
+  cases hp : Dict.get? md.params n with
+  | some v =>
+    cases v with
+    | some o => simp only [hp] at h; split at h <;> cases h
+    | none =>
+      simp only [hp] at hwf
+      cases hb : Dict.get? md.buffers n <;> cases hd : Dict.get? md.plain n <;> simp [hb, hd] at hwf
+      simp [hp, hb, hd, Option.join]
+  | none =>
+    simp only [hp] at h hwf
+    cases hb : Dict.get? md.buffers n with
+    | some v =>
+      cases v with
+      | some o => simp [hb] at h
+      | none =>
+        simp only [hb] at hwf
+        cases hd : Dict.get? md.plain n <;> simp [hd] at hwf
+        simp [hp, hb, hd, Option.join]
+    | none =>
+      simp only [hb] at h
+      cases hd : Dict.get? md.plain n with
+      | some o => simp only [hd] at h; split at h <;> cases h
+      | none => simp [hp, hb, hd, Option.join]
+
+theorem setTensor_err {md : Mod} {n : Name} {t : Tn} {e} (hwf : CellWF (md.cell n))
+    (h : setTensor md n t = .error e) : cellSwap (md.cell n) t = none := by
+  unfold setTensor at h
+  split at h
+  · exact setTensorCustom_err hwf h
+  · exact setTensorNative_err h
+
+/-- the leaf step succeeds exactly when the cell view does, with that result -/
+theorem setTensor_of_cell {md : Mod} {n : Name} {t out : Tn} {c' : Cell} (hwf : CellWF (md.cell n))
     (h : cellSwap (md.cell n) t = some (c', out)) :
     ∃ md', setTensor md n t = .ok (md', out) ∧ md'.cell n = c' := by
   cases hs : setTensor md n t with
-  | error e => rw [setTensor_err hs] at h; cases h
+  | error e => rw [setTensor_err hwf hs] at h; cases h
   | ok r =>
     obtain ⟨md', out'⟩ := r
     have := (setTensor_ok hs).1
@@ -509,9 +594,12 @@ theorem swap_back : ∀ (es : List (Name × PTree)) (h : Heap) (memo : Memo) (m 
     -- the cell (m, k) in g is what the first run left there
     have hgk : cellAt g m k = md.cell k := by
       rw [hnames k (by simp [leafKeys]), fr1.names k hknot, cellAt_upd]; simp
-    have hback := (cellSwap_involutive (hwf m k) hcs).2
+    have hinv := cellSwap_involutive (hwf m k) hcs
+    have hback := hinv.2
     rw [← hgk] at hback
-    obtain ⟨md2, hst2, hmd2⟩ := setTensor_of_cell (md := g m) hback
+    obtain ⟨md2, hst2, hmd2⟩ := setTensor_of_cell (md := g m) (by
+      have : (g m).cell k = md.cell k := hgk
+      rw [this]; exact hinv.1) hback
     obtain ⟨_, hfr2, hkd2⟩ := setTensor_ok hst2
     have ih := swap_back rest (h.upd m md) memo m h1 memo1 outs' hrest hm (upd_wf hwf hst) hnd'
       (g.upd m md2) gm hgm hsim
@@ -732,6 +820,7 @@ mutual
 def StmtOK : Stmt → Prop
   | .nop => True
   | .raise => True
+  | .raiseBase => True
   | .block p _ _ body => LeafNodup p ∧ ProgOK body
   | .tryExcept body => ProgOK body
 def ProgOK : List Stmt → Prop
@@ -799,6 +888,9 @@ theorem execStmt_spec : ∀ (x : Stmt) (σ : State), HeapWF σ.heap → StmtOK x
   | .raise, σ, _, _ => by
     simp only [execStmt]
     exact ⟨by simp, fun _ => HeapEq.refl _, fun _ => ⟨[], by simp, by simp⟩⟩
+  | .raiseBase, σ, _, _ => by
+    simp only [execStmt]
+    exact ⟨by simp, fun _ => HeapEq.refl _, fun _ => ⟨[], by simp, by simp⟩⟩
   | .tryExcept body, σ, hwf, hok => by
     have ih := execList_spec body σ hwf (by simpa [StmtOK] using hok)
     simp only [execStmt]
@@ -807,6 +899,7 @@ theorem execStmt_spec : ∀ (x : Stmt) (σ : State), HeapWF σ.heap → StmtOK x
     cases st
     · exact ih
     · exact ⟨by simp, fun _ => ih.restored (by simp), fun _ => ih.store (by simp)⟩
+    · exact ih
     · exact ih
     · exact ih
   | .block p m temp body, σ, hwf, hok => by
@@ -861,6 +954,12 @@ theorem execStmt_spec : ∀ (x : Stmt) (σ : State), HeapWF σ.heap → StmtOK x
         · exact ⟨by simp, fun _ => heq, fun _ => hst4⟩
         · exact ⟨by simp, fun _ => heq, fun _ => hst4⟩
         · exact absurd rfl hres
+      · obtain ⟨σ4, res, he, hres, heq, hst4⟩ := hexit (by simp) (Status.raisedBase == Status.raised)
+        simp only [he]
+        cases res
+        · exact ⟨by simp, fun _ => heq, fun _ => hst4⟩
+        · exact ⟨by simp, fun _ => heq, fun _ => hst4⟩
+        · exact absurd rfl hres
       · exact ⟨by simp, fun h => absurd rfl h, fun h => absurd rfl h⟩
       · exact absurd rfl ih.noExitFail
 theorem execList_spec : ∀ (xs : List Stmt) (σ : State), HeapWF σ.heap → ProgOK xs →
@@ -886,6 +985,7 @@ theorem execList_spec : ∀ (xs : List Stmt) (σ : State), HeapWF σ.heap → Pr
       rcases List.mem_append.1 htd with h | h
       · exact q1 td h
       · exact q2 td h
+    · exact ih1
     · exact ih1
     · exact ih1
     · exact ih1
@@ -1242,5 +1342,219 @@ theorem swap_held {h h' : Heap} {m : MId} {p s} (hs : swap h m p = .ok (h', s)) 
     split at hc
     · cases hc
     · simp [Memo.find] at hc) (fun _ _ _ _ => rfl) (fun _ _ => rfl) (fun _ => rfl)).1
+
+
+/-! ### use_state_dict=True -/
+
+theorem nodesRenest_node (k : Name) (es r : List (Name × PTree)) :
+    nodesRenest ((k, .node es) :: r) =
+      (if pruneEmpty es = [] then nodesRenest r else (k, .node (pruneEmpty es)) :: nodesRenest r) := by
+  by_cases h : pruneEmpty es = []
+  · rw [if_pos h]
+    have h' : leavesOf es ++ nodesRenest es = [] := h
+    simp only [nodesRenest, h']
+  · rw [if_neg h]
+    have h' : ¬ (leavesOf es ++ nodesRenest es = []) := h
+    simp only [nodesRenest]
+    rfl
+
+theorem leafKeys_append (a b : List (Name × PTree)) : leafKeys (a ++ b) = leafKeys a ++ leafKeys b := by
+  induction a with
+  | nil => rfl
+  | cons x a ih =>
+    obtain ⟨k, v⟩ := x
+    cases v <;> simp [leafKeys, ih]
+
+theorem leafKeys_leavesOf : ∀ (es : List (Name × PTree)), leafKeys (leavesOf es) = leafKeys es
+  | [] => by simp [leavesOf, leafKeys]
+  | (k, .leaf t) :: r => by simp [leavesOf, leafKeys, leafKeys_leavesOf r]
+  | (k, .node es) :: r => by simp [leavesOf, leafKeys, leafKeys_leavesOf r]
+
+theorem leafKeys_nodesRenest : ∀ (es : List (Name × PTree)), leafKeys (nodesRenest es) = []
+  | [] => by simp [nodesRenest, leafKeys]
+  | (k, .leaf t) :: r => by simp [nodesRenest, leafKeys_nodesRenest r]
+  | (k, .node es) :: r => by
+    rw [nodesRenest_node]; split <;> simp [leafKeys, leafKeys_nodesRenest r]
+
+theorem leafKeys_prune (es : List (Name × PTree)) : leafKeys (pruneEmpty es) = leafKeys es := by
+  simp [pruneEmpty, leafKeys_append, leafKeys_leavesOf, leafKeys_nodesRenest]
+
+/-- leaves first, then nested entries; no nested entry without content — at every depth -/
+def Normal : List (Name × PTree) → Prop
+  | [] => True
+  | (_, .leaf _) :: r => Normal r
+  | (_, .node es) :: r => es ≠ [] ∧ Normal es ∧ Normal r ∧ leafKeys r = []
+
+theorem leafNodup_leaves_nodes : ∀ (a b : List (Name × PTree)), LeafNodup a → LeafNodup b → leafKeys b = [] →
+    LeafNodup (a ++ b)
+  | [], b, _, hb, _ => hb
+  | (k, .leaf t) :: a, b, ha, hb, hlb => by
+    simp only [LeafNodup] at ha
+    simp only [List.cons_append, LeafNodup, leafKeys_append, hlb, List.append_nil]
+    exact ⟨ha.1, leafNodup_leaves_nodes a b ha.2 hb hlb⟩
+  | (k, .node es) :: a, b, ha, hb, hlb => by
+    simp only [LeafNodup] at ha
+    simp only [List.cons_append, LeafNodup]
+    exact ⟨ha.1, leafNodup_leaves_nodes a b ha.2 hb hlb⟩
+
+theorem leafNodup_leavesOf : ∀ (es : List (Name × PTree)), LeafNodup es → LeafNodup (leavesOf es)
+  | [], _ => by simp [leavesOf, LeafNodup]
+  | (k, .leaf t) :: r, h => by
+    simp only [LeafNodup] at h
+    simp only [leavesOf, LeafNodup, leafKeys_leavesOf]
+    exact ⟨h.1, leafNodup_leavesOf r h.2⟩
+  | (k, .node es) :: r, h => by
+    simp only [LeafNodup] at h
+    simp only [leavesOf]; exact leafNodup_leavesOf r h.2
+
+theorem leafNodup_nodesRenest : ∀ (es : List (Name × PTree)), LeafNodup es → LeafNodup (nodesRenest es)
+  | [], _ => by simp [nodesRenest, LeafNodup]
+  | (k, .leaf t) :: r, h => by
+    simp only [LeafNodup] at h
+    simp only [nodesRenest]; exact leafNodup_nodesRenest r h.2
+  | (k, .node es) :: r, h => by
+    simp only [LeafNodup] at h
+    rw [nodesRenest_node]
+    split
+    · exact leafNodup_nodesRenest r h.2
+    · simp only [LeafNodup, pruneEmpty]
+      exact ⟨leafNodup_leaves_nodes _ _ (leafNodup_leavesOf es h.1) (leafNodup_nodesRenest es h.1) (leafKeys_nodesRenest es),
+        leafNodup_nodesRenest r h.2⟩
+
+theorem leafNodup_prune (es : List (Name × PTree)) (h : LeafNodup es) : LeafNodup (pruneEmpty es) :=
+  leafNodup_leaves_nodes _ _ (leafNodup_leavesOf es h) (leafNodup_nodesRenest es h) (leafKeys_nodesRenest es)
+
+theorem normal_leaves_nodes : ∀ (a b : List (Name × PTree)), (∀ x ∈ a, ∃ k t, x = (k, PTree.leaf t)) → Normal b →
+    Normal (a ++ b)
+  | [], b, _, hb => hb
+  | x :: a, b, ha, hb => by
+    obtain ⟨k, t, rfl⟩ := ha x (by simp)
+    simp only [List.cons_append, Normal]
+    exact normal_leaves_nodes a b (fun y hy => ha y (List.mem_cons_of_mem _ hy)) hb
+
+theorem leavesOf_leaves : ∀ (es : List (Name × PTree)), ∀ x ∈ leavesOf es, ∃ k t, x = (k, PTree.leaf t)
+  | [], x, h => by simp [leavesOf] at h
+  | (k, .leaf t) :: r, x, h => by
+    simp only [leavesOf, List.mem_cons] at h
+    rcases h with rfl | h
+    · exact ⟨k, t, rfl⟩
+    · exact leavesOf_leaves r x h
+  | (k, .node es) :: r, x, h => by
+    simp only [leavesOf] at h; exact leavesOf_leaves r x h
+
+theorem normal_nodesRenest : ∀ (es : List (Name × PTree)), Normal (nodesRenest es)
+  | [] => by simp [nodesRenest, Normal]
+  | (k, .leaf t) :: r => by simp only [nodesRenest]; exact normal_nodesRenest r
+  | (k, .node es) :: r => by
+    rw [nodesRenest_node]
+    split
+    · exact normal_nodesRenest r
+    · rename_i hne
+      simp only [Normal]
+      exact ⟨hne, normal_leaves_nodes _ _ (leavesOf_leaves es) (normal_nodesRenest es), normal_nodesRenest r,
+        leafKeys_nodesRenest r⟩
+
+theorem normal_prune (es : List (Name × PTree)) : Normal (pruneEmpty es) :=
+  normal_leaves_nodes _ _ (leavesOf_leaves es) (normal_nodesRenest es)
+
+theorem leavesOf_of_noLeaf : ∀ (r : List (Name × PTree)), leafKeys r = [] → leavesOf r = []
+  | [], _ => by simp [leavesOf]
+  | (k, .leaf t) :: r, h => by simp [leafKeys] at h
+  | (k, .node es) :: r, h => by
+    simp only [leafKeys] at h; simp only [leavesOf]; exact leavesOf_of_noLeaf r h
+
+/-- re-nesting a tensordict that is already in that form changes nothing -/
+theorem prune_id : ∀ (es : List (Name × PTree)), Normal es → pruneEmpty es = es
+  | [], _ => by simp [pruneEmpty, leavesOf, nodesRenest]
+  | (k, .leaf t) :: r, h => by
+    simp only [Normal] at h
+    have := prune_id r h
+    simp only [pruneEmpty, leavesOf, nodesRenest, List.cons_append] at this ⊢
+    rw [this]
+  | (k, .node es) :: r, h => by
+    simp only [Normal] at h
+    obtain ⟨hne, hes, hr, hnl⟩ := h
+    have ihr := prune_id r hr
+    have ihe := prune_id es hes
+    simp only [pruneEmpty] at ihr
+    rw [leavesOf_of_noLeaf r hnl, List.nil_append] at ihr
+    simp only [pruneEmpty, leavesOf, leavesOf_of_noLeaf r hnl, List.nil_append]
+    rw [nodesRenest_node, ihe, ihr]
+    simp [hne]
+
+theorem shape_nil_iff {a b : List (Name × PTree)} (h : shape a = shape b) : a = [] ↔ b = [] := by
+  cases a with
+  | nil => cases b with
+    | nil => simp
+    | cons y b => obtain ⟨k, v⟩ := y; cases v <;> simp [shape] at h
+  | cons x a =>
+    obtain ⟨k, v⟩ := x
+    cases b with
+    | nil => cases v <;> simp [shape] at h
+    | cons y b => simp
+
+/-- the swap of a tensordict without empty nested entries has none either -/
+theorem swap_outs_normal : ∀ (es : List (Name × PTree)) (h : Heap) (memo : Memo) (m : MId) (h1 : Heap)
+    (memo1 : Memo) (outs : List (Name × PTree)),
+    swapEntries h memo m es = .ok (h1, memo1, outs) → memo.find m = some none → Normal es →
+    (∀ c sw, memo.find c = some (some sw) → sw ≠ [] ∧ Normal sw) →
+    Normal outs ∧ (∀ c sw, memo1.find c = some (some sw) → sw ≠ [] ∧ Normal sw)
+  | [], h, memo, m, h1, memo1, outs, hr, _, _, hmemo => by
+    rw [swapEntries_nil] at hr
+    injection hr with hr; injection hr with e1 hr; injection hr with e2 e3
+    subst e1 e2 e3
+    exact ⟨by simp [Normal], hmemo⟩
+  | (k, .leaf t) :: rest, h, memo, m, h1, memo1, outs, hr, hm, hne, hmemo => by
+    obtain ⟨md, out, outs', hst, hrest, rfl⟩ := swapEntries_leaf_inv hr
+    simp only [Normal] at hne ⊢
+    exact swap_outs_normal rest _ memo m h1 memo1 outs' hrest hm hne hmemo
+  | (k, .node es) :: rest, h, memo, m, h1, memo1, outs, hr, hm, hne, hmemo => by
+    simp only [Normal] at hne
+    obtain ⟨c, hk, hcase⟩ := swapEntries_node_inv hr
+    rcases hcase with ⟨sw, outs', hhit, hrest, rfl⟩ | ⟨h2, memo2, sw, outs', hmiss, hchild, hrest, rfl⟩
+    · have ih := swap_outs_normal rest h memo m h1 memo1 outs' hrest hm hne.2.2.1 hmemo
+      have fr := swap_frame rest h memo m h1 memo1 outs' hrest hm
+      simp only [Normal]
+      exact ⟨⟨(hmemo c sw hhit).1, (hmemo c sw hhit).2, ih.1, by rw [leafKeys_of_shape fr.shp]; exact hne.2.2.2⟩, ih.2⟩
+    · have hcm : c ≠ m := by intro e; subst e; rw [hmiss] at hm; cases hm
+      have frc := swap_frame es h ((c, none) :: memo) c h2 memo2 sw hchild (by simp [find_cons])
+      have hm2 : Memo.find ((c, some sw) :: memo2) m = some none := by
+        rw [find_cons, if_neg hcm]; apply frc.keep; rw [find_cons, if_neg hcm]; exact hm
+      have ihc := swap_outs_normal es h ((c, none) :: memo) c h2 memo2 sw hchild (by simp [find_cons]) hne.2.1
+        (by
+          intro x sw' hx
+          have hxc : c ≠ x := by intro e; subst e; simp [find_cons] at hx
+          rw [find_cons, if_neg hxc] at hx
+          exact hmemo x sw' hx)
+      have hswne : sw ≠ [] := fun e => hne.1 ((shape_nil_iff frc.shp).1 e)
+      have hmemo2 : ∀ x sw', Memo.find ((c, some sw) :: memo2) x = some (some sw') → sw' ≠ [] ∧ Normal sw' := by
+        intro x sw' hx
+        by_cases hxc : c = x
+        · subst hxc; simp [find_cons] at hx; subst hx; exact ⟨hswne, ihc.1⟩
+        · rw [find_cons, if_neg hxc] at hx; exact ihc.2 x sw' hx
+      have ihr := swap_outs_normal rest h2 ((c, some sw) :: memo2) m h1 memo1 outs' hrest hm2 hne.2.2.1 hmemo2
+      have frr := swap_frame rest h2 ((c, some sw) :: memo2) m h1 memo1 outs' hrest hm2
+      simp only [Normal]
+      exact ⟨⟨hswne, ihc.1, ihr.1, by rw [leafKeys_of_shape frr.shp]; exact hne.2.2.2⟩, ihr.2⟩
+
+theorem swap_normal {h h' : Heap} {m : MId} {p s} (hs : swap h m p = .ok (h', s)) (hne : Normal p) : Normal s := by
+  obtain ⟨memo1, hrun⟩ := swap_inv hs
+  exact (swap_outs_normal p h _ m h' memo1 s hrun (by simp [find_cons]) hne (by
+    intro c sw hc
+    rw [find_cons] at hc
+    split at hc
+    · cases hc
+    · simp [Memo.find] at hc)).1
+
+theorem namesWF_sdView (md : Mod) (h : NamesWF md) : NamesWF (sdView md) := by
+  unfold NamesWF at h ⊢
+  have hp : Dict.keys (sdView md).params = Dict.keys md.params := by
+    simp [sdView, Dict.keys, List.map_map, Function.comp_def]
+  have hb : List.Sublist (Dict.keys (sdView md).buffers) (Dict.keys md.buffers) := by
+    simp only [sdView, Dict.keys, List.map_map, Function.comp_def]
+    exact List.Sublist.map _ (List.filter_sublist)
+  have hk : (sdView md).kids = md.kids := rfl
+  rw [hp, hk]
+  exact List.Nodup.sublist (List.Sublist.append (List.Sublist.append (List.Sublist.refl _) hb) (List.Sublist.refl _)) h
 
 end TdVerif.C13
